@@ -22,6 +22,9 @@ pub enum Comp {
     Delta(usize),
     Bcj(u8),
     Bcj2,
+    /// two or three concatenated XZ streams with stream padding, read by `XZReader` in
+    /// multi-stream mode (reader side only)
+    XzMulti,
 }
 
 impl Comp {
@@ -31,10 +34,11 @@ impl Comp {
             Comp::Delta(_) => "delta".into(),
             Comp::Bcj(id) => format!("bcj-{}", crate::props::c02::BCJ_IDS.iter().find(|b| b.0 == *id).map(|b| b.2).unwrap_or("?")),
             Comp::Bcj2 => "bcj2".into(),
+            Comp::XzMulti => "xz-multi-stream".into(),
         }
     }
     pub fn framed(&self) -> bool {
-        matches!(self, Comp::Framed(_) | Comp::Bcj2)
+        matches!(self, Comp::Framed(_) | Comp::Bcj2 | Comp::XzMulti)
     }
 }
 
@@ -55,6 +59,7 @@ pub fn components() -> Vec<Comp> {
         Comp::Delta(1),
         Comp::Delta(7),
         Comp::Bcj2,
+        Comp::XzMulti,
     ];
     for (id, _, _) in crate::props::c02::BCJ_IDS {
         v.push(Comp::Bcj(id));
@@ -80,6 +85,9 @@ pub struct Stream {
     pub orig: Vec<u8>,
     /// extra streams for BCJ2: call, jump, rc
     pub extra: Vec<Vec<u8>>,
+    /// XzMulti: (file length, content length) of every proper prefix of the file that is a
+    /// complete multi-stream file of its own (end of a stream plus 4k bytes of padding)
+    pub valid_prefixes: Vec<(usize, usize)>,
 }
 
 fn bcj_writer_single(id: u8, data: &[u8]) -> Vec<u8> {
@@ -143,7 +151,7 @@ fn make_stream(comp: &Comp, r: &mut Rng, o: &LZMAOptions) -> Stream {
             let has_bcj = matches!(c, Container::Xz { filters, .. } if filters.iter().any(|f| f.0 != 3));
             let part = if has_bcj { vec![orig.len()] } else { vec![4096; orig.len() / 4096 + 1] };
             let bytes = encode(&spec, &orig, &part, 0).expect("stream maker");
-            Stream { bytes, orig, extra: vec![] }
+            Stream { bytes, orig, extra: vec![], valid_prefixes: vec![] }
         }
         Comp::Delta(d) => {
             let orig = gen::gen_data(r, Family::Periodic, len);
@@ -152,7 +160,7 @@ fn make_stream(comp: &Comp, r: &mut Rng, o: &LZMAOptions) -> Stream {
                 let mut w = DeltaWriter::new(&mut out, *d);
                 w.write_all(&orig).unwrap();
             }
-            Stream { bytes: out, orig, extra: vec![] }
+            Stream { bytes: out, orig, extra: vec![], valid_prefixes: vec![] }
         }
         Comp::Bcj(id) => {
             let exe = exe_for(*id);
@@ -163,7 +171,36 @@ fn make_stream(comp: &Comp, r: &mut Rng, o: &LZMAOptions) -> Stream {
                 gen::gen_data(r, Family::Random, len)
             };
             let bytes = bcj_writer_single(*id, &orig);
-            Stream { bytes, orig, extra: vec![] }
+            Stream { bytes, orig, extra: vec![], valid_prefixes: vec![] }
+        }
+        Comp::XzMulti => {
+            let n = 2 + r.usize_below(2);
+            let mut bytes = Vec::new();
+            let mut orig = Vec::new();
+            let mut valid_prefixes = Vec::new();
+            for i in 0..n {
+                let part_len = match r.below(4) {
+                    0 => 0,
+                    _ => r.range(50, 4000) as usize,
+                };
+                let fam = *r.pick(&[Family::Text, Family::Exe, Family::Random]);
+                let d = gen::gen_data(r, fam, part_len);
+                let spec = Spec { c: Container::Xz { check: *r.pick(&[0u8, 1, 4, 10]), block: if r.chance(1, 2) { Some(4096) } else { None }, filters: vec![] }, o: o.clone() };
+                let b = encode(&spec, &d, &[d.len()], 0).expect("stream maker");
+                bytes.extend_from_slice(&b);
+                orig.extend_from_slice(&d);
+                let pad = *r.pick(&[0usize, 0, 4, 8, 12]);
+                if i + 1 < n || r.chance(1, 2) {
+                    for k in 0..=pad / 4 {
+                        if i + 1 < n || k < pad / 4 {
+                            valid_prefixes.push((bytes.len() + 4 * k, orig.len()));
+                        }
+                    }
+                    bytes.extend(std::iter::repeat(0u8).take(pad));
+                }
+            }
+            valid_prefixes.retain(|p| p.0 < bytes.len());
+            Stream { bytes, orig, extra: vec![], valid_prefixes }
         }
         Comp::Bcj2 => {
             let exe = exe_for(0x04);
@@ -178,6 +215,7 @@ fn make_stream(comp: &Comp, r: &mut Rng, o: &LZMAOptions) -> Stream {
                 bytes: s.main,
                 orig,
                 extra: vec![s.call, s.jump, s.rc],
+                valid_prefixes: vec![],
             }
         }
     }
@@ -206,6 +244,12 @@ fn read_with(comp: &Comp, st: &Stream, o: &LZMAOptions, plan: ReadPlan, sizes: &
         }
         Comp::Bcj(id) => {
             let mut rd = mk_bcj_reader(*id, FaultyRead::new(&st.bytes, plan), 0);
+            let d = drain(&mut rd, sizes, cap, 64);
+            let s = rd.into_inner();
+            (d, s.delivered_err, s.delivered_eof, s.calls)
+        }
+        Comp::XzMulti => {
+            let mut rd = lzma_rust2::XZReader::new(FaultyRead::new(&st.bytes, plan), true);
             let d = drain(&mut rd, sizes, cap, 64);
             let s = rd.into_inner();
             (d, s.delivered_err, s.delivered_eof, s.calls)
@@ -284,6 +328,9 @@ fn truncate_sweep(comp: &Comp, st: &Stream, o: &LZMAOptions, cname: &str, base: 
                         Ok(()) => {
                             // LZIP: cut inside the magic of a later member is accepted either way
                             if d.out == st.orig {
+                                same += 1;
+                            } else if st.valid_prefixes.iter().any(|p| p.0 == cut && d.out.len() == p.1 && st.orig.starts_with(&d.out)) {
+                                // the cut file is a complete multi-stream file of its own
                                 same += 1;
                             } else if matches!(comp, Comp::Framed(Container::Lzip { .. })) && lzip_cut_tolerated(&st.bytes, cut, &d.out, &st.orig) {
                                 same += 1;
@@ -490,13 +537,16 @@ fn write_with(comp: &Comp, st: &Stream, o: &LZMAOptions, plan: WritePlan, partit
             };
             (res, s)
         }
-        Comp::Bcj2 => (Ok(()), sink),
+        Comp::Bcj2 | Comp::XzMulti => (Ok(()), sink),
     }
 }
 
 fn write_sweep(comp: &Comp, st: &Stream, o: &LZMAOptions, cname: &str, base: &str, r: &mut Rng, errors: bool) -> Vec<CaseOut> {
     if *comp == Comp::Bcj2 {
         return vec![CaseOut::skip(format!("{cname}|write"), "the crate has no BCJ2 writer", base)];
+    }
+    if *comp == Comp::XzMulti {
+        return vec![CaseOut::skip(format!("{cname}|write"), "reader-side component (the writer is covered by the xz components)", base)];
     }
     let mut out = Vec::new();
     // single write for BCJ components (the multi-write defect is a separate known finding)
